@@ -583,6 +583,9 @@ class AclMachine(Machine):
             if res[0] != res[1]:
                 self._fail("C02", "C02.converge", f"there/back/there differs:\n{res[0]}\n---\n"
                                                   f"{res[1]}", opkind=k)
+            if not res[2]:
+                self._fail("C02", "C02.converge", "there/back/there: data() differs although the "
+                                                  "text converged", opkind=k)
         elif k == "tcam":
             self._oracle_tcam(slot, res)
         elif k in ("shading", "shadow_of"):
